@@ -72,6 +72,10 @@ def programs(tier):
     # nested struct declared before use, three levels; same field name at several levels
     out.append(("nested-3", [A, B, ("struct", "D", (("b", 0, ("ref", "B"), None, None), ("a", 1, ("ref", "A"), None, None), ("x", 2, U(1), None, None)))]))
     out += NAMING
+    # widths beyond the 64 bits every carrier type ends at: the front end may refuse them (it does since fix 63);
+    # if it accepts them the generated header has to compile and carry the value like any other schema
+    out.append(("optional:width-65", [_st("Wide", ("big", U(65)), ("small", I(8)))], {"Wide": {"big": 5, "small": -3}}))
+    out.append(("optional:width-99", [_st("Wide", ("pad", U(3)), ("big", I(99)))], {"Wide": {"pad": 5, "big": -2}}))
     return out
 
 
@@ -124,7 +128,11 @@ def run_one(item):
     S.add("nontrivial", label)
     text = print_schema(decls)
     inp = {"text": text, "program": label}
-    fcp = get_fcp_from_string(text, Logger({})).unwrap()
+    parsed = get_fcp_from_string(text, Logger({}))
+    if parsed.is_err() and label.startswith("optional:"):
+        S.add("outcomes", "refused-by-front-end:" + label)
+        return S
+    fcp = parsed.unwrap()
     S.count("executions")
     try:
         files = cppbuild.generate_cpp(fcp)
